@@ -42,6 +42,7 @@ var gSources = map[string]string{
 	`x y`:       "x y\n",
 	`ab `:       "ab[ ]\n",
 	`ld1`:       "ld1\n",
+	``:          "##! nothing but a comment\n",
 }
 
 const rulesFileName = "rules/REQUEST-932-APPLICATION-ATTACK-RCE.conf"
@@ -131,7 +132,7 @@ func checkRules(c *Ctx, roundTrip bool) error {
 	c.Cov["recorded_target_lines_validated"] = atomic.LoadInt64(&updTraces)
 	c.Cov["exhaustive"] = keepMod == 1
 	if roundTrip {
-		c.Cov["rule"] = fmt.Sprintf("rules files of <= %d items over the 16-item vocabulary of MC_Rules x targets (7 ids x chain 0..3) x one regex of the hazard pool (9 regexes, one ending in a blank, one a substring of a stored operand) per target; history compare / update / compare / update / generate / edit one operand byte / compare (text and github mode) / append one blank to the operand / compare / update --all / compare --all on the real binary, each step compared with the spec; non-trivial = update succeeds and the regex contains a quote, $, blank or backslash", items)
+		c.Cov["rule"] = fmt.Sprintf("rules files of <= %d items over the 16-item vocabulary of MC_Rules x targets (7 ids x chain 0..3) x one regex of the hazard pool (10 regexes, one ending in a blank, one a substring of a stored operand, one empty) per target; history compare / update / compare / update / generate / edit one operand byte / compare (text and github mode) / append one blank to the operand / compare / update --all / compare --all on the real binary, each step compared with the spec; non-trivial = update succeeds and the regex contains a quote, $, blank or backslash", items)
 	} else {
 		c.Cov["rule"] = fmt.Sprintf("rules files of <= %d items over the 16-item vocabulary of MC_Rules x targets (7 ids x chain 0..3) x one regex of the hazard pool per target; after `regex update` the whole tree is compared with the spec: rules file bytes = Bytes(Update(..)), nothing else changed, failures leave everything untouched; non-trivial = file has >= 2 rules or the target is a chained link", items)
 	}
@@ -159,6 +160,7 @@ func rulesReplay(c *Ctx, name string, rc *RulesCase, roundTrip bool, cli *int64)
 		"regex-assembly/942100.ra": "keep\n",
 		// .ra files that are not the assembly file of a rule: ignored by every --all walk; one sorts
 		// before all rule files, one between a rule's chain files and its main file
+		"regex-assembly/.gitattributes":           "*.ra text\n", // a hidden regular file: the --all walks go on
 		"regex-assembly/100000-draft.ra":          "draft\n",
 		"regex-assembly/" + rc.Rule + "-old.ra":   "stale\n",
 		"rules/REQUEST-942-APPLICATION-SQLI.conf": "SecRule ARGS \"@rx keep\" \\\n    \"id:942100,\\\n    block\"\n",
@@ -258,14 +260,18 @@ func rulesReplay(c *Ctx, name string, rc *RulesCase, roundTrip bool, cli *int64)
 	if r4.Exit != 0 || r4.Stdout != rc.Regex {
 		bad(fmt.Sprintf("generate prints %q, the operand written is %q", r4.Stdout, rc.Regex), nil)
 	}
-	if rc.Off+len(rc.Regex) <= len(rc.After) && rc.After[rc.Off:rc.Off+len(rc.Regex)] == rc.Regex && len(rc.Regex) > 0 {
-		// edit one byte of the stored operand
+	if rc.Off+len(rc.Regex) <= len(rc.After) && rc.After[rc.Off:rc.Off+len(rc.Regex)] == rc.Regex {
+		// edit one byte of the stored operand (an empty operand gets one byte instead)
 		b := []byte(rc.After)
-		pos := rc.Off + (len(rc.Regex)-1)/2
-		if b[pos] == 'q' {
-			b[pos] = 'z'
+		if len(rc.Regex) == 0 {
+			b = []byte(rc.After[:rc.Off] + "q" + rc.After[rc.Off:])
 		} else {
-			b[pos] = 'q'
+			pos := rc.Off + (len(rc.Regex)-1)/2
+			if b[pos] == 'q' {
+				b[pos] = 'z'
+			} else {
+				b[pos] = 'q'
+			}
 		}
 		os.WriteFile(root+"/"+rulesFileName, b, 0o644)
 		edited, _ := snapshot(root)
